@@ -40,8 +40,11 @@ def cmd_property(prop, a):
         if n <= 0:
             continue
         seeds = [core.run_seed(base_seed, i) for i in range(n)]
-        deadline = (t0 + wall_cap) if wall_cap else None
         tf = time.perf_counter()
+        # every family gets an equal share of the wall cap (what an earlier family did not use is passed on)
+        nfam = len(spec["families"])
+        idx = [f[0] + str(f[2]) for f in spec["families"]].index(fam_name + str(opts))
+        deadline = (t0 + wall_cap * (idx + 1) / nfam) if wall_cap else None
         results, timed_out = core.run_batch(fam_name, seeds, tier, workers, opts=opts, deadline=deadline)
         for r in results:
             agg.add(fam_name, r)
